@@ -119,8 +119,19 @@ impl<'a, IB: InputBackend, SE: brush_core::ShellExtensions> InteractiveShell<'a,
 
         drop(shell);
 
+        // N.B. A fatal error must not skip the end-of-session steps below (notably the
+        // EXIT trap); remember it and report it once they've run.
+        let mut fatal_err = None;
+
         loop {
-            let result = self.run_interactively_once().await?;
+            let result = match self.run_interactively_once().await {
+                Ok(result) => result,
+                Err(err) => {
+                    announce_exit = false;
+                    fatal_err = Some(err);
+                    break;
+                }
+            };
             match result {
                 InteractiveExecutionResult::Executed(brush_core::ExecutionResult {
                     next_control_flow: brush_core::results::ExecutionControlFlow::ExitShell,
@@ -160,7 +171,8 @@ impl<'a, IB: InputBackend, SE: brush_core::ShellExtensions> InteractiveShell<'a,
         shell.end_interactive_session()?;
 
         if announce_exit {
-            writeln!(shell.stderr(), "exit")?;
+            // Best-effort; failing to announce must not skip the on-exit operations.
+            let _ = writeln!(shell.stderr(), "exit");
         }
 
         if let Err(e) = shell.save_history() {
@@ -173,6 +185,10 @@ impl<'a, IB: InputBackend, SE: brush_core::ShellExtensions> InteractiveShell<'a,
         shell.on_exit().await?;
 
         drop(shell);
+
+        if let Some(err) = fatal_err {
+            return Err(err);
+        }
 
         Ok(())
     }
